@@ -1072,10 +1072,7 @@ def evaluate__path(self: XPathFunction, context: ta.ContextType = None) -> ta.On
 
     if not isinstance(item, XPathNode):
         return []
-    elif context.root is None or (root_node := item.root_node) is not context.root:
-        # The context has no root or the root is not the root of the item node
-        return []
-    elif not isinstance(root_node, (DocumentNode, SchemaElementNode)):
+    elif not isinstance(root_node := item.root_node, (DocumentNode, SchemaElementNode)):
         # It's a fragment: add fn:root() to select the root position
         path = item.path[len(root_node.path):]
         return f"Q{{{XPATH_FUNCTIONS_NAMESPACE}}}root(){path}"
